@@ -12,6 +12,7 @@ import (
 	"testing"
 	"time"
 
+	"github.com/gogo/protobuf/proto"
 	"pgregory.net/rapid"
 
 	"github.com/teleport-network/teleport/x/xibc/exported"
@@ -165,7 +166,7 @@ func (w *world) act(t *rapid.T, cl *client, action, to, variant string) actResul
 			w.fail(t, "toggle proposal with a %s client state accepted for the %s client %q (a toggle must change the type)", to, from, cl.name)
 		}
 	}
-	cl.in, cl.updates, cl.tainted, cl.installedAt = in, 0, "", bt
+	cl.in, cl.updates, cl.tainted, cl.installedAt, cl.proofOK = in, 0, "", bt, false
 	if in.Typ == TSS {
 		cl.tssCur = in.tss.addr
 	}
@@ -180,7 +181,7 @@ func (w *world) act(t *rapid.T, cl *client, action, to, variant string) actResul
 		cl.tainted = "toggled while " + kfToggleOld + " is listed"
 	}
 	if action == "toggle" && !w.listed[kfToggleOld] && w.listed[kfLeftover] && (to == BSC || to == ETH) {
-		if lh, typ, ok := lowestConsensus(prev, w); ok && lh.LT(in.Height) && typ != fmt.Sprintf("%T", in.Cons) {
+		if lh, typ, ok := lowestConsensus(prev, w); ok && lh.LT(in.Height) && typ != proto.MessageName(in.Cons.(proto.Message)) {
 			// the old client's lowest consensus state stays below the new height: BSC / ETH pruning trips over it on every update
 			skip["update"] = kfLeftover
 			if delayUpdates(in) > 0 {
@@ -199,6 +200,7 @@ func (w *world) act(t *rapid.T, cl *client, action, to, variant string) actResul
 		}
 	}
 	out.Follow = w.follow(t, cl, bt, what, skip)
+	cl.proofOK = out.Follow.proof
 	keys := map[string]bool{}
 	for _, c := range out.Follow.skipped {
 		keys[skip[c]] = true
@@ -218,9 +220,15 @@ func (w *world) drawVariant(t *rapid.T, action, to string) string {
 	if action == "toggle" && w.listed[kfToggleOld] {
 		return "plain" // toggles do not initialise the new type at all while that finding is listed
 	}
-	if wrongConsAccepted(action, to) && w.listed[kfWrongCons] {
-		w.r.Exclude(kfWrongCons)
-		return "plain"
+	if wrongConsAccepted(action, to) {
+		key := kfWrongCons
+		if to == TM {
+			key = kfTMUpgrade // the empty tendermint UpgradeState neither checks the type nor writes metadata
+		}
+		if w.listed[key] {
+			w.r.Exclude(key)
+			return "plain"
+		}
 	}
 	return "wrongcons"
 }
@@ -330,10 +338,11 @@ func (w *world) runCell(t *rapid.T, spec cellSpec) {
 	}
 	a := w.act(t, cl, spec.Action, spec.To, variant)
 	out := outcomeOf(spec, a)
-	w.r.Label("cell:" + spec.String() + ":" + out)
+	vk := ""
 	if a.Variant != "plain" {
-		w.r.Label("variant:" + spec.Action + ":" + spec.To + ":" + strings.SplitN(a.Variant, "(", 2)[0] + ":" + map[bool]string{true: "accepted", false: "rejected"}[a.Accepted])
+		vk = ":" + strings.SplitN(a.Variant, "(", 2)[0] // wrongcons
 	}
+	w.r.Label("cell:" + spec.String() + vk + ":" + out)
 	nontrivial := a.Accepted && a.Follow.proof
 	shape := fmt.Sprintf("%s|%s|%s|%v", spec, a.Variant, out, a.Excluded)
 	hist := append([]stepLog{}, w.log[mark:]...)
@@ -438,7 +447,7 @@ func runLifecycle(t *rapid.T, r *rec.Recorder) {
 		},
 		"proofAgain": func(t *rapid.T) {
 			// the proof at the installed height keeps verifying while the client lives (no pruning within these time spans)
-			if cl.in == nil || cl.updates < delayUpdates(cl.in) || (cl.in.Typ == TM && w.listed[kfTMUpgrade]) {
+			if cl.in == nil || !cl.proofOK {
 				t.Skip("no proof to re-check")
 			}
 			if cl.in.Typ == TM && w.c.Header.Time.Before(cl.installedAt.Add(time.Duration(cl.in.tm.delay))) {
